@@ -424,3 +424,49 @@ func ZZ_C16_usercode_distinct() {
 	zz.Assert(sa != sb, "two different user codes never share a stored signature")
 	zz.Cover("usercode:two-codes-signed", true)
 }
+
+// ZZ_C16_reconfigured: the lifetime of device and user codes is CHANGED between two device authorization
+// requests on one provider. Each flow advertises and gets the lifetime in force when IT was started: after the
+// user approved both, a poll succeeds exactly while the polled flow's own lifetime has not passed.
+func ZZ_C16_reconfigured() {
+	l1 := time.Duration(zz.Int("life1.s", 30, 1800)) * time.Second
+	l2 := time.Duration(zz.Int("life2.s", 30, 1800)) * time.Second
+	s := &st{scope: "photos"}
+	s.w = world.New(world.Options{
+		Tweak: func(cfg *fosite.Config) {
+			cfg.DeviceAndUserCodeLifespan = l1
+			cfg.DeviceVerificationURL = "https://as.example/device"
+		},
+		Extra: []compose.Factory{compose.RFC8628DeviceFactory, compose.RFC8628DeviceAuthorizationTokenFactory},
+	})
+	s.strat = compose.NewDeviceStrategy(s.w.Cfg)
+	start := func(client, secret string) (*flow, int64) {
+		req, err := s.w.Provider.NewDeviceRequest(s.w.Ctx, world.Post(url.Values{"client_id": {client}, "client_secret": {secret}, "scope": {s.scope}}))
+		zz.Assume(err == nil)
+		resp, err := s.w.Provider.NewDeviceResponse(s.w.Ctx, req, world.NewSession(""))
+		zz.Assume(err == nil)
+		return &flow{owner: client, deviceCode: resp.GetDeviceCode(), userCode: resp.GetUserCode(), issuedAt: time.Now()}, resp.GetExpiresIn()
+	}
+	f1, e1 := start("c1", world.Secret1)
+	zz.Assert(e1 > int64(l1/time.Second)-2 && e1 <= int64(l1/time.Second), "reconfigured: the first flow advertises the lifetime in force at its start")
+	s.w.Cfg.DeviceAndUserCodeLifespan = l2
+	f2, e2 := start("c2", world.Secret2)
+	zz.Assert(e2 > int64(l2/time.Second)-2 && e2 <= int64(l2/time.Second), "reconfigured: the second flow advertises the lifetime in force NOW")
+	s.decide(f1, 1)
+	s.decide(f2, 1)
+	d := time.Duration(zz.Int("advance", 0, int64(35*time.Minute)))
+	for _, l := range []time.Duration{l1, l2} {
+		zz.Assume(zz.Or(d < l-3*time.Second, d > l+3*time.Second))
+	}
+	zz.Advance(d)
+	which := zz.Choice("polled", 2)
+	f, l, client, secret := f1, l1, "c1", world.Secret1
+	if which == 1 {
+		f, l, client, secret = f2, l2, "c2", world.Secret2
+	}
+	_, err := s.w.Token(client, secret, url.Values{"grant_type": {grantType}, "device_code": {f.deviceCode}})
+	zz.Observe("poll.err", world.ErrName(err))
+	zz.Assert((err == nil) == (d < l), "reconfigured: an approved flow yields tokens exactly until the lifetime in force at ITS start has passed")
+	zz.Cover("reconfigured:lifetime-shortened", l2 < l1)
+	zz.Cover("reconfigured:lifetime-extended", l2 > l1)
+}
